@@ -25,6 +25,7 @@ pub fn gen_oligo_case(rng: &mut Rng, tier: &str, prop: &str) -> Case {
         alpha_w: [60, 15, 10, 8, 2, 4, 1],
         min_len: 0,
         dup_pct: 3,
+            tab_desc_pct: 0,
     };
     let mut records = g.gen(rng);
     // keep wide rows affordable: k >= 6 means thousands of columns per row
